@@ -16,6 +16,13 @@ Qed.
 Lemma sqrt_ok_inv t st : MinInitializedTickV2 <= t <= MaxTick -> tick_to_sqrt_price t = Ok st -> st = sqrt_of t.
 Proof. intros H E. rewrite tick_to_sqrt_price_floor in E by exact H. congruence. Qed.
 
+Lemma price_round_trip_main t p : MinInitializedTickV2 <= t <= MaxTick ->
+  tick_to_price t = Ok p -> calculate_price_to_tick p = Ok t.
+Proof.
+  intros Ht E. rewrite tick_to_price_floor in E by exact Ht. inversion E; subst p. consts.
+  apply price_round_trip. unfold G. lia.
+Qed.
+
 (* bucket mapping, lower edge inclusive, upper edge exclusive *)
 Lemma bucket_main t s st st1 : MinInitializedTick <= t < MaxTick ->
   tick_to_sqrt_price t = Ok st -> tick_to_sqrt_price (t + 1) = Ok st1 -> st <= s < st1 ->
